@@ -564,7 +564,8 @@ func (x *run) ServeDNS(w dns.ResponseWriter, r *dns.Msg) {
 	switch p.Kind {
 	case "async":
 		// answer later, from another task, while the server already reads the next query of this connection
-		k.Go("async-"+tok, &asyncReply{k: k, m: mk(r.Id, p.ReplySize), send: send, steps: p.Steps, sleepMs: p.SleepMs})
+		// (the reply is built from the request when it is sent, not now: the handler keeps r)
+		k.Go("async-"+tok, &asyncReply{k: k, mk: func() *dns.Msg { return mk(r.Id, p.ReplySize) }, send: send, steps: p.Steps, sleepMs: p.SleepMs})
 	case "raw":
 		sendRaw(mk(r.Id, p.ReplySize))
 	case "rawoversize":
@@ -631,7 +632,7 @@ func (x *run) ServeDNS(w dns.ResponseWriter, r *dns.Msg) {
 
 type asyncReply struct {
 	k       *kernel.K
-	m       *dns.Msg
+	mk      func() *dns.Msg
 	send    func(*dns.Msg)
 	steps   int
 	sleepMs int
@@ -645,7 +646,7 @@ func (a *asyncReply) RunEvent(time.Time) {
 	if a.sleepMs > 0 {
 		a.k.Sleep("async.sleep", time.Duration(a.sleepMs)*time.Millisecond)
 	}
-	a.send(a.m)
+	a.send(a.mk())
 }
 
 //go:norace
@@ -1540,6 +1541,9 @@ func runExchange(sc *Scenario, res *core.Result, verbose bool) {
 	for ci, c := range sc.Clients {
 		for ei, e := range c.Exch {
 			x.ex[tok(ci, ei)] = &exState{ci: ci, ei: ei, token: tok(ci, ei), plan: e, id: uint16(1000 + ci*64 + ei), net: c.Net}
+			if ci == 0 && ei == 0 && sc.RunSeed%5 == 0 {
+				x.ex[tok(ci, ei)].id = 0 // a query whose ID is zero is a query like any other
+			}
 		}
 	}
 	start0 := time.Now()
